@@ -32,6 +32,9 @@ func (a *Addressing) ExtractMailbox(address string) (string, error) {
 	if err != nil {
 		return "", err
 	}
+	if local == "" {
+		return "", errors.New("mailbox name cannot be empty")
+	}
 
 	if a.Config.MailboxNaming == config.LocalNaming {
 		return local, nil
